@@ -85,6 +85,7 @@ class ProgGen:
     def __init__(self, rnd, maxdepth=5, nfuncs=None, p_while_continue=0.15, probes=True, vars_=('va', 'vb', 'vc', 'vd'), typed=False):
         # typed=True keeps booleans out of arithmetic (va, vb numeric; vc, vd boolean) so finding F14 cannot interfere
         self.typed = typed
+        self.late_defs = False
         self.boolvars = {'vc', 'vd'} if typed else set()
         self.r = rnd
         self.maxdepth = maxdepth
@@ -248,6 +249,36 @@ class ProgGen:
             prog.append(f)
             self.funcs.append(sig)
         prog += self.block(self.vars, 0, False, False, n=r.randint(2, 6))
+        if self.late_defs and nf:
+            # functions bind globally when their definition statement EXECUTES: move a definition to a later top-level
+            # position, put it inside an if branch, or define a name twice (the later definition wins from then on)
+            x = r.random()
+            if x < 0.25:
+                f = prog.pop(r.randrange(nf))
+                prog.insert(r.randint(nf - 1, len(prog)), f)
+                self.features.add('late-def')
+            elif x < 0.45:
+                i = r.randrange(nf)
+                y = r.random()
+                if y < 0.5:
+                    prog[i] = ['if', [[self.cond(self.vars), [prog[i]]]], None]
+                elif y < 0.75:
+                    # a definition inside an open global for / while block (break/continue inside the function bind to ITS loops)
+                    self.nloop += 1
+                    prog[i] = ['for', f'it{self.nloop}', None, C('arrayNew', N(1)), [prog[i]]]
+                else:
+                    self.nloop += 1
+                    w = f'w{self.nloop}'
+                    prog[i:i + 1] = [['assign', w, N(0)], ['while', B('<', V(w), N(1)), [['assign', w, B('+', V(w), N(1))], prog[i]]]]
+                    nf += 1
+                self.features.add('conditional-def')
+            elif x < 0.6:
+                i = r.randrange(nf)
+                saved, self.funcs = self.funcs, self.funcs[:i]  # the new body may only call functions defined before it (no recursion)
+                f2, _ = self.function(i)
+                self.funcs = saved
+                prog.insert(r.randint(nf, len(prog)), f2)
+                self.features.add('redefinition')
         prog.append(self.log(self.vars))
         return prog
 
